@@ -7,6 +7,9 @@ def jobs(tier):
             witnesses=['eos block','capped at N','ordinary block','no block'],
             functions=['vorbis_analysis_blockout'],models=['M-dsp: envelope search/mark = any decision; _vp_ampmax_decay identity'],
             bounds='block sizes (%d,%d) concrete; every other field symbolic under I_enc; A,sequence<2^40; inductive step => any N, any write partition'%(1<<e0,1<<e1)))
+    import importlib.util as _u, os as _o
+    pth=_o.path.join(_o.path.dirname(_o.path.dirname(_o.path.abspath(__file__))),'block','jobs_common.py'); sp=_u.spec_from_file_location('blk',pth); m=_u.module_from_spec(sp); sp.loader.exec_module(m)
+    J+=[j for j in m.blockin_jobs(tier) if j.name.startswith('blockin-step')]
     return J
-CLAIM={'text':'Inductive-step model checking of the real encoder block scheduler (vorbis_analysis_blockout) from every state satisfying the invariant I_enc, plus (as they are added) the decoder-side step and base cases; decides the sample-count/granule bookkeeping for every N and every write partition at the listed block-size pairs.',
+CLAIM={'text':'Inductive-step model checking of the real encoder block scheduler (vorbis_analysis_blockout) from every state satisfying the invariant I_enc, plus (as they are added) the decoder-side step and base cases; and of the decoder accumulator (vorbis_synthesis_blockin: a block exposes (lW/4+W/4)>>hs samples, the eos block is trimmed to its granule position, granule tracking); decides the sample-count/granule bookkeeping for every N and every write partition at the listed block-size pairs.',
  'note':'Trusted: CBMC C semantics; psychoacoustic decisions (_ve_envelope_search/_mark) modelled as arbitrary; float DSP is outside; invariant I_enc as written in harness/C04/enc_step.c. Bounds: concrete block-size pairs per job, ghost positions < 2^40.'}
